@@ -1,21 +1,21 @@
 CONSTANTS
- Hosts = {"m1", "up"}
+ Hosts = {"up"}
  Up = "up"
  Ids = {"A", "B"}
  N = 2
  RA = 50
- Kinds = {"ok", "ok206", "short0", "s429ra", "s500", "s404", "reset"}
- MaxFaults = 3
+ Kinds = {"ok", "s500", "s429ra", "reset", "s404", "s401n"}
+ MaxFaults = 4
  MaxSeeks = 0
- Conc = 8
- RelNR = TRUE
+ Conc = 2
+ RelNR = FALSE
  FixLeak = TRUE
  PrioAsc = TRUE
- Rs = {2}
+ Rs = {2, 3}
  Prios = {0}
- Meths = {"GET"}
+ Meths = {"GET", "PUT"}
  Waive <- WaiveNone
- Confs <- EqConfs
+ Confs <- OneShotConfs
 INIT MCInit
 NEXT MCNext
 INVARIANTS Ok RetryBound TypeOK NoThrottleBlock SlotsAccounted
